@@ -408,15 +408,7 @@ func c13RestartBody(t *testing.T, s *sim.Scn, o *sim.Outcome) {
 			rw.aggAddr = fmt.Sprintf("%s/p2p/%s", addr, pid)
 		}
 	}
-	if j := s.Cfg["jitter"]; j > 0 {
-		// a slow disk, without simulated time (which cannot be spent under the locks these paths hold): about one
-		// goroutine in three lets every other runnable goroutine go first j times at each of its datastore operations. Which of two
-		// goroutines that become runnable at the same instant gets where first is otherwise always the same.
-		for _, rn := range rw.nodes {
-			rn.sn.Disk.Yield = spinJitter(j, uint64(s.Cfg["jsalt"]))
-		}
-		o.Count("fault:disk-scheduling-jitter", 1)
-	}
+	rw.applyJitter()
 	if rl := s.Cfg["readlat"]; rl > 0 {
 		// point reads of the block store (not of the go-header stores, which are read under go-header's locks)
 		// take simulated time
@@ -766,6 +758,21 @@ func c13RestartBody(t *testing.T, s *sim.Scn, o *sim.Outcome) {
 	o.Count("whole-node:blocks-produced", int(ah))
 	o.Count("whole-node-restart-timelines", 1)
 	o.NonTrivial = o.Counters["timeline:start"] > 0 || o.Counters["timeline:cut"] > 0
+}
+
+// applyJitter (cfg jitter > 0): a slow disk, without simulated time (which cannot be spent under the locks
+// these paths hold): about one goroutine in three lets every other runnable goroutine go first `jitter` times
+// at each of its datastore operations. Which of two goroutines that become runnable at the same instant gets
+// where first is otherwise always the same.
+func (rw *rworld) applyJitter() {
+	j := rw.s.Cfg["jitter"]
+	if j <= 0 {
+		return
+	}
+	for _, rn := range rw.nodes {
+		rn.sn.Disk.Yield = spinJitter(j, uint64(rw.s.Cfg["jsalt"]))
+	}
+	rw.o.Count("fault:disk-scheduling-jitter", 1)
 }
 
 // spinJitter returns a datastore yield hook that makes about one goroutine in three a slow one: each of its
